@@ -18,7 +18,7 @@ import (
 
 // C18 — no network input can crash the server or leak its resources.
 func init() {
-	Register(&Scenario{Name: "c18", Prop: "C18", MaxSteps: 400000, Run: runC18, PanicIsViolation: true})
+	Register(&Scenario{Name: "c18", LivelockIsViolation: true, Prop: "C18", MaxSteps: 400000, Run: runC18, PanicIsViolation: true})
 }
 
 // logCapture is a slog handler that keeps warning/error records.
